@@ -1,6 +1,8 @@
 //! Generators for substring-search workloads: needle families and haystacks
 //! derived from the needle.
 
+#[allow(unused_imports)]
+use crate::prelude::*;
 use crate::util::Rng;
 
 pub fn fib_word(len: usize) -> Vec<u8> {
